@@ -220,6 +220,23 @@ def records(drv):
     r2 = copy.deepcopy(rec); r2[k]["orig_equal"] = False
     ok, why = records_accept("TmsJsonTrace", "TmsJsonTrace.cfg", "tmsjson_trace.ndjson", [json.dumps(x) for x in r2])
     report("tmsjson", "re-encoded built-in differs from its source", not ok, why)
+    # Kmp
+    vec = [{"corpus": [0, 1, 0, 1, 1, 0, 1], "find": [0, 1]}, {"corpus": [0, 1, 1, 0, 1, 0, 1, 1], "find": [0, 1, 1, 0, 1, 1]},
+           {"corpus": [2, 2, 2], "find": [1]}]
+    p = vlib.run([drv, "kmp-run"], input="\n".join(json.dumps(x) for x in vec) + "\n", check=True)
+    lines = [x for x in p.stdout.splitlines() if x.startswith("{")]
+    ok, _ = records_accept("KmpTrace", "KmpTrace.cfg", "kmp_trace.ndjson", lines)
+    report("kmp", "clean records accepted", ok)
+    rec = [json.loads(x) for x in lines]
+    r2 = copy.deepcopy(rec); r2[0]["got"] = r2[0]["got"][:-1]
+    ok, why = records_accept("KmpTrace", "KmpTrace.cfg", "kmp_trace.ndjson", [json.dumps(x) for x in r2])
+    report("kmp", "last occurrence not reported", not ok, why)
+    r2 = copy.deepcopy(rec); r2[1]["got"] = [1]
+    ok, why = records_accept("KmpTrace", "KmpTrace.cfg", "kmp_trace.ndjson", [json.dumps(x) for x in r2])
+    report("kmp", "a false match other than the modelled one", not ok, why)
+    r2 = copy.deepcopy(rec); r2[2]["out"] = "panic: runtime error: index out of range"
+    ok, why = records_accept("KmpTrace", "KmpTrace.cfg", "kmp_trace.ndjson", [json.dumps(x) for x in r2])
+    report("kmp", "recorded panic", not ok, why)
 
 
 def main():
